@@ -22,10 +22,12 @@ CONSTANTS MaxLen,     \* exhaustive: all sequences of kinds up to this length
 \* package-level named interfaces in files the build includes: must be mocked
 MustKinds == {"iface", "generic", "grouped", "embed-std", "embed-local", "embed-inst", "empty", "unexported",
               "anon-params", "chan-func-params", "sort-like", "unicode", "line-directive", "rare-syntax",
-              "tag-on", "shadowed-by-local", "struct-shadowed-by-local-iface-plus-iface"}
+              "tag-on", "shadowed-by-local", "struct-shadowed-by-local-iface-plus-iface",
+              \* hand-written or third-party-generated source files carrying a generated-code header
+              "iface-in-generated-file", "iface-in-generated-file-blockcomment"}
 \* no package-level interface of that name exists in an included file: nothing to mock, must not crash
 NoneKinds == {"struct", "functype", "local", "local-blank", "blank", "local-in-lit", "local-in-method",
-              "local-in-generic-func", "local-shadows-struct", "tag-off", "ignored-file", "test-file", "init-funcs",
+              "local-in-generic-func", "local-shadows-struct", "tag-off", "ignored-file", "test-file", "init-funcs", "goos-file",
               \* aliases and defined types whose right-hand side is not an interface type
               "alias-struct-lit", "alias-func", "alias-pointer", "alias-map", "alias-chan-of-iface", "alias-slice-inst",
               "alias-basic", "alias-struct-inst", "defined-over-struct-inst"}
@@ -46,7 +48,13 @@ AliasKinds == {"alias", "alias-iface-lit", "alias-embed-lit", "alias-inst", "ali
                "alias-any", "alias-error", "alias-struct-lit", "alias-func", "alias-pointer", "alias-map", "alias-chan-of-iface",
                "alias-slice-inst", "alias-basic", "alias-struct-inst"}
 
-GoModSpellings == {"plain", "tab", "quoted", "comment", "block", "block-comment", "crlf"}
+GoModSpellings == {"plain", "tab", "quoted", "comment", "block", "block-comment", "crlf",
+                   "module-last", "v2", "many-directives"}
+\* "any syntactically valid go.mod" is more than spellings of the module line: the go.mod that governs the OUTPUT
+\* directory may be a nested one (a directory cut out of the enclosing module) and need not have a module directive
+NoModuleShapes == {"empty", "whitespace-only", "comment-only", "go-only", "toolchain-only", "require-only", "replace-only",
+                   "exclude-only", "retract-only", "bom-module"}
+WithModuleShapes == {"module-plain", "module-last", "module-v2", "module-crlf", "module-quoted", "module-block", "module-only-no-go"}
 Layouts == {"sep", "inpkg"}
 \* how the package's interfaces are selected: all: true / the must-declarations listed by name / only the anchor
 \* listed (the unusual declarations are in the package but NOT selected: they are still parsed)
@@ -74,11 +82,21 @@ GoModWorlds == {[kind |-> "gomod", decls |-> <<"iface">>, select |-> "all", spel
                   s \in GoModSpellings, l \in Layouts}
 PkgShapeWorlds == {[kind |-> "pkgshape", decls |-> <<>>, select |-> "all", spelling |-> "plain", layout |-> "sep", shape |-> s, ctx |-> x] :
                      s \in PkgShapes, x \in {"alone", "among"}}
-Worlds == DeclWorlds \cup RandomDeclWorlds \cup GoModWorlds \cup PkgShapeWorlds \cup CfgShapeWorlds
+\* nested go.mod of each shape in the output directory; the module's own go.mod without a module directive
+NestedGoModWorlds == {[kind |-> "gomod-nested", decls |-> <<"iface">>, select |-> "all", spelling |-> "plain", layout |-> "sep", shape |-> s, ctx |-> "-"] :
+                        s \in NoModuleShapes \cup WithModuleShapes}
+RootNoModuleWorlds == {[kind |-> "gomod-root-nomodule", decls |-> <<"iface">>, select |-> "all", spelling |-> "plain", layout |-> "sep", shape |-> s, ctx |-> "-"] :
+                         s \in {"empty", "comment-only", "go-only"}}
+Worlds == NestedGoModWorlds \cup RootNoModuleWorlds \cup DeclWorlds \cup RandomDeclWorlds \cup GoModWorlds \cup PkgShapeWorlds \cup CfgShapeWorlds
 
 \* CONTRACT: a valid world succeeds, and every must-declaration is mocked (1-based positions in decls)
 MustPositions(wd) == IF wd.select = "none" THEN {} ELSE {i \in 1..Len(wd.decls) : wd.decls[i] \in MustKinds}
-Expectation(wd) == [exit |-> "zero", panic |-> FALSE, must |-> MustPositions(wd),
+\* the destination package path cannot be determined without a module directive: a diagnostic and a non-zero exit,
+\* never a crash; with one (wherever it stands in the file) the run succeeds
+PathUndeterminable(wd) == \/ wd.kind = "gomod-nested" /\ wd.shape \in NoModuleShapes
+                          \/ wd.kind = "gomod-root-nomodule"
+Expectation(wd) == [exit |-> IF PathUndeterminable(wd) THEN "nonzero" ELSE "zero", panic |-> FALSE,
+                    must |-> IF PathUndeterminable(wd) THEN {} ELSE MustPositions(wd),
                     \* a configured package that contributes no interface is not an error
                     anything_written |-> (wd.kind # "pkgshape" \/ wd.ctx = "among")]
 
